@@ -268,7 +268,7 @@ def run(pid, tier, seed):
     files, _ = adapters.parse_humanized("a.c: Error!\nError: SPC_BEFORE_NL        (line:   3, col:   5):\tSpace before newline\n")
     if files != [{"name": "a.c", "verdict": "Error", "diags": [("Error", "SPC_BEFORE_NL", 3, 5, "Space before newline")], "fatal": None}]:
         raise core.HarnessError("report parser self-test failed: %r" % files)
-    shards, n = (8, 40) if tier == "quick" else (16, 2000)
+    shards, n = (16, 80) if tier == "quick" else (16, 2000)
     camp = core.Campaign()
     for name, rc in core.regress_cases(pid):
         for k, what in replay(pid, rc["case"]):
